@@ -472,3 +472,34 @@ register("C12",
                       nontrivial=lambda case, im: len(case.get("raw", [])) >= 9),
           e2e_part("C12", [("s", {"p_func": 0.25, "units": [1, 2]})], _pairs_c02, {"C12"}, _has(("struct", "field")),
                    n_quick=90, n_thorough=900)])
+
+
+def _c13_part(rep, tier):
+    from . import c13tier
+    return c13tier.run_c13(rep, tier)
+
+
+register("C13",
+         "one package per (expression, where it is written): 50 expression forms of a package-level initialiser (literals, composite "
+         "literals of every type kind, conversions incl. to named function types, operators, selectors, indexing, slicing, "
+         "dereference, address-of, type assertion, parentheses; calls through functions / methods / values of named function types / "
+         "builtins, receives, function literals; interface-typed expressions; unexported identifiers) written in the injector's "
+         "package and in a provider set of another package; verdict compared with WireV.processValueOk over the regenerated "
+         "whitelist; accepted ones are compiled and run: value = home evaluation, same value/pointer on every call, no function ran; "
+         "non-trivial = each type-correct (expression, place) pair",
+         [_c13_part])
+
+
+def _c15_part(rep, tier):
+    from . import c15tier
+    return c15tier.run_c15(rep, tier)
+
+
+register("C15",
+         "regenerated tables: every go/ast node kind of the toolchain has a case in copyAST and every child / child-list / value field "
+         "of its struct is carried over (decide over the whole table); e2e: a corpus of 20 declarations covering labels, goto, all switch "
+         "and select forms, closures, shadowing of names the generated file imports, generics (type parameters, constraints, explicit "
+         "instantiation with one and two type arguments), struct tags, doc comments, aliased and same-named imports is copied by wire, "
+         "the declaration order is compared, the package is compiled and vetted, and every function is executed with and without the "
+         "wireinject tag (identical output required); non-trivial = the corpus run",
+         [_c15_part])
